@@ -39,7 +39,9 @@ class HaScn:
 
     def start(self):
         o = self.o
-        out = self.s.cmd("HANEW %d %d %d %d %d %d%s" % (self.nep, o["N"], o["SndTo"], o["RcvTo"], o["MaxReq"], o["ConTo"], " x" if self.svc == "extend" else ""))
+        # every other scenario starts in the KSI_CTX of the previous one (whose service is freed with whatever was outstanding): HaService.tla describes ONE
+        # service; a new service of the same context starts from the same initial state
+        out = self.s.cmd("HANEW %d %d %d %d %d %d %s%s" % (self.nep, o["N"], o["SndTo"], o["RcvTo"], o["MaxReq"], o["ConTo"], "x" if self.svc == "extend" else "-", " same" if getattr(self, "same_ctx", False) else ""))
         if "rc=0" not in out[-1]:
             raise vlib.CheckError("HANEW failed: %s" % out)
         self.s.ep_open = {}; self.s.ep_conn = {}
@@ -193,13 +195,15 @@ def request_traces(chk, exe, rng, nep, o, nscen, steps, label):
     try:
         for k in range(nscen):
             sc = HaScn(sess, rng, nep, o, k, svc=("extend" if k % 3 == 2 else "sign"))
+            sc.same_ctx = (k % 2 == 1)
             starts.append(len(events) + 1)
             mark = len(sess.log)
             try:
                 sc.start()
                 for _ in range(steps):
                     sc.step()
-                sc.drain()
+                if k % 4 != 0:
+                    sc.drain()        # every fourth scenario is ABANDONED with whatever is outstanding: the next one starts in the same context (k odd)
             except netsim.Died as e:
                 chk.violation("crash:ha", "libksi crashed/aborted in the HA service\n%s" % str(e)[-2500:], dict(events=sc.ev, driver_log=sess.log[mark:][-300:]))
                 sess = netsim.Session(exe); starts.pop(); continue
